@@ -15,6 +15,10 @@ import Gotree.Lemmas.C13C01Stream
 import Gotree.Lemmas.C13Chunks
 import Gotree.Lemmas.C13Layout
 import Gotree.Lemmas.C13Taxa
+import Gotree.Lemmas.C13Tips
+import Gotree.Lemmas.C13Dec
+import Gotree.Lemmas.C13Cli
+import Gotree.Lemmas.C13Foreign
 
 namespace Gotree.C13
 open Gotree
@@ -270,6 +274,18 @@ theorem phyloxml_chain (E : Env) (NL : NumLaws E.N) (ts : List T) (h : ∀ t ∈
       Bool.true_and, Bool.and_eq_true]
     exact ⟨(sameKept_iff t' t).2 h2, ih (fun x hx => ht x (by simp [hx])) (i + 1)⟩
 
+/-- The law of the number codec, GENERAL: the decimal codec (`FormatFloat 'f' -1` as exact decimal
+    expansion / decimal `ParseFloat`) reads back every rational whose expansion is finite (`decDom`:
+    within the printer's 1100 digits — every float64 qualifies): `parse (TrimSpace (fmt q)) = q`. -/
+theorem decimal_codec_law (q : Rat) (h : decDom q = true) : decCodec.parse (Px.trim (decCodec.fmt q)) = some q :=
+  decCodec_parse_fmt q h
+
+/-- PhyloXML round trip with the decimal codec, no assumption left on numbers: every length and
+    support only has to have a finite decimal expansion -/
+theorem phyloxml_chain_decimal (C : NewickCodec) (ts : List T) (h : ∀ t ∈ ts, pxOK decDom t = true) :
+    ∃ recs, readMulti ⟨C, decCodec⟩ (.phyloxml (some (Px.encode decCodec ts))) = some recs ∧ recsAre ts recs 0 = true :=
+  phyloxml_chain ⟨C, decCodec⟩ decNumLaws ts h
+
 /- ## Nexus round trip -/
 
 /-- `nexus_roundtrip` without translate table, CHARACTER level, in terms of the label state the
@@ -423,6 +439,101 @@ theorem nexus_taxa_block (C : NewickCodec) (L : NewickLaws C) (ts : List T)
     taxaBlockOK ts (writeNexus C false (enumFrom 0 ts)) = true :=
   taxaBlock_written C L false ts hn hlab (by simpa using hw) (by intro h; cases h)
 
+/- ## Nexus documents the writer never emits: what the parser skips -/
+
+/-- a comment between the commands of a TREES block is skipped -/
+theorem nexus_comment_in_trees_block_skipped (f : Nat) (c r : List Nex.Tok) (a : Nex.TreesAcc)
+    (h : ∀ t ∈ c, t ≠ .closebrack) :
+    Nex.parseTrees (f + 1) (.openbrack :: (c ++ .closebrack :: r)) a = Nex.parseTrees f r a :=
+  parseTrees_comment f c r a h
+
+/-- a comment between the commands of a TAXA block is skipped -/
+theorem nexus_comment_in_taxa_block_skipped (f : Nat) (c r : List Nex.Tok) (n : Int) (labs : List String)
+    (h : ∀ t ∈ c, t ≠ .closebrack) :
+    Nex.parseTaxa (f + 1) (.openbrack :: (c ++ .closebrack :: r)) n labs = Nex.parseTaxa f r n labs :=
+  parseTaxa_comment f c r n labs h
+
+/-- a command the TREES block does not know (`TITLE x;` …) is skipped up to its `;` -/
+theorem nexus_unknown_command_skipped (f : Nat) (w : String) (c r : List Nex.Tok) (a : Nex.TreesAcc)
+    (h : ∀ t ∈ c, t ≠ .endcmd) :
+    Nex.parseTrees (f + 1) (.ident w :: (c ++ .endcmd :: r)) a = Nex.parseTrees f r a :=
+  parseTrees_unknown_command f w c r a h
+
+/-- a block the parser does not know (`BEGIN FIGTREE; … END;`) is skipped as a whole -/
+theorem nexus_unknown_block_skipped (f : Nat) (b b' e : String) (c r : List Nex.Tok) (st : Nex.PState)
+    (h : ∀ t ∈ c, ∀ l, t ≠ .kw .end_ l) :
+    Nex.parseLoop (f + 1) (.kw .begin_ b :: .ident b' :: .endcmd :: (c ++ .kw .end_ e :: .endcmd :: r)) st =
+      Nex.parseLoop f r st :=
+  parseLoop_unknown_block f b b' e c r st h
+
+/- ## The `gotree reformat` glue (cmd/reformat*.go) -/
+
+/-- a file whose trees are all delivered: exit status 0 and the writer's document of exactly these
+    trees, with the identifiers the reader gave them -/
+theorem reformat_good (E : Env) (out : OutFmt) (tr : Bool) (ts : List T) :
+    reformatGlue E out tr (recsOfTrees ts 0) =
+      (true, match out with
+        | .newick => Px.joinT (fun t => E.C.write t ++ ['\n']) ts
+        | .nexus => writeNexus E.C tr (enumFrom 0 ts)
+        | .phyloxml => Px.render E.N ts) :=
+  reformatGlue_good E out tr ts
+
+/-- a broken tree after `ts` good ones is reported by a non-zero exit status; `reformat newick` has
+    written the trees before it, `reformat nexus|phyloxml` nothing -/
+theorem reformat_error (E : Env) (out : OutFmt) (tr : Bool) (ts : List T) (rest : List Rec) :
+    reformatGlue E out tr (recsOfTrees ts 0 ++ ⟨ts.length, .err⟩ :: rest) =
+      (false, match out with
+        | .newick => Px.joinT (fun t => E.C.write t ++ ['\n']) ts
+        | _ => []) :=
+  reformatGlue_error E out tr ts rest
+
+theorem recsAre_congr (ts us : List T) (recs : List Rec) (i : Nat) (h : us.map strip = ts.map strip)
+    (hr : recsAre us recs i = true) : recsAre ts recs i = true := by
+  induction ts generalizing us recs i with
+  | nil =>
+    cases us with
+    | nil => exact hr
+    | cons _ _ => simp at h
+  | cons t ts ih =>
+    cases us with
+    | nil => simp at h
+    | cons u us =>
+      cases recs with
+      | nil => simp [recsAre] at hr
+      | cons r rs =>
+        simp only [List.map_cons, List.cons.injEq] at h
+        simp only [recsAre, Bool.and_eq_true] at hr ⊢
+        refine ⟨⟨hr.1.1, ?_⟩, ih us rs (i + 1) h.2 hr.2⟩
+        cases hro : r.out with
+        | err => rw [hro] at hr; simp [Out.keptEq] at hr
+        | ok x =>
+          rw [hro] at hr
+          simp only [Out.keptEq] at hr ⊢
+          exact (sameKept_iff x t).2 (((sameKept_iff x u).1 hr.1.2).trans h.1)
+
+/-- `gotree reformat nexus -i trees.nw` followed by reading the result: the whole CLI conversion
+    newick → nexus → trees, as composition of the multi-tree reader, the glue, the writer and the Nexus
+    reader.  The conditions on the re-read trees `L.norm t` are what `nexus_roundtrip_plain` asks of the
+    trees it is given. -/
+theorem reformat_newick_to_nexus_roundtrip (E : Env) (L : NewickLaws E.C) (ts : List T) (hne : ts ≠ [])
+    (hw : ∀ t ∈ ts, L.wf t = true) (hwn : ∀ t ∈ ts, L.wf (L.norm t) = true)
+    (hs : ∀ t ∈ ts, treeTextOK (E.C.write (L.norm t)) = true)
+    (htips : ∀ t ∈ ts, tipsOK (L.norm t) = true) (hst : sameTaxa (ts.map L.norm) = true) :
+    (reformatGlue E .nexus false (readMultiNewick E.C (unlines (ts.map E.C.write)))).1 = true ∧
+    ∃ recs, readMulti E (.nexus (reformatGlue E .nexus false (readMultiNewick E.C (unlines (ts.map E.C.write)))).2) = some recs ∧
+      recsAre ts recs 0 = true := by
+  rw [multi_delivers_all E.C L ts hne hw, reformatGlue_good]
+  refine ⟨rfl, ?_⟩
+  obtain ⟨recs, h1, h2⟩ := nexus_chain_plain E L (ts.map L.norm)
+    (by intro t ht; obtain ⟨u, hu, rfl⟩ := List.mem_map.1 ht; exact hwn u hu)
+    (by intro t ht; obtain ⟨u, hu, rfl⟩ := List.mem_map.1 ht; exact hs u hu)
+    (by intro t ht; obtain ⟨u, hu, rfl⟩ := List.mem_map.1 ht; exact htips u hu) hst
+  refine ⟨recs, h1, recsAre_congr ts (ts.map L.norm) recs 0 ?_ h2⟩
+  rw [List.map_map]
+  apply List.map_congr_left
+  intro t ht
+  exact L.norm_strip t (hw t ht)
+
 /- ## Composition with property C01: its verified Newick model as the codec
 
    `c01Codec F` is `Gotree.Newick.write` / `Gotree.Newick.parse` of Model/C01 (the codec the driver runs,
@@ -482,6 +593,55 @@ theorem nexus_translate_repeated_inner_name_fails :
      | .ok [(_, t)] => sameKept t dupTree
      | _ => false) = true ∧
     tipsOK dupTree = true ∧ nonTipNamesNotNumeral dupTree = true ∧ innerNamesDistinct dupTree = false := by
+  decide +kernel
+
+/- ## The repair of open finding F60, proved ahead of time (variant model `Model/C13Tips.lean`)
+
+   Writer and reader rename the TIPS only through the translate table (`renameTips`; the reader then runs
+   `UpdateTipIndex`) instead of calling `tree.Rename`.  Everything else is the code as it is. -/
+
+/-- `nexus_roundtrip` with a translate table for the tips-only variant: the hypothesis
+    `innerNamesDistinct` of `nexus_roundtrip_translate_partial` is GONE (and `nonTipNamesNotNumeral` too):
+    any inner names, repeated or numeral-like, survive. -/
+theorem nexus_roundtrip_translate_tipsOnly (C : NewickCodec) (L : NewickLaws C) (t0 : T) (rest : List T)
+    (htips : ∀ t ∈ t0 :: rest, tipsOK t = true) (hst : sameTaxa (t0 :: rest) = true)
+    (hw : ∀ t ∈ t0 :: rest, L.wf (renameTips (mapFrom 0 t0.tipNames) t) = true)
+    (hs : ∀ t ∈ t0 :: rest, treeTextOK (C.write (renameTips (mapFrom 0 t0.tipNames) t)) = true) :
+    ∃ d, Nex.parseTips C (writeNexusTips C true (enumFrom 0 (t0 :: rest))) = .ok d ∧
+      recsAre (t0 :: rest) (recsOfTrees (d.map (·.2)) 0) 0 = true :=
+  parseTips_writeTips C L t0 rest htips hst hw hs
+
+/-- the variant changes nothing without a translate table: same text as `writeNexus` -/
+theorem writeNexusTips_plain (C : NewickCodec) (its : List (Nat × T)) :
+    writeNexusTips C false its = writeNexus C false its := by
+  have h : ∀ (its : List (Nat × T)) (s : WState) (buf : Txt),
+      writeNexusLoopTips C false its s buf = writeNexusLoop C false its s buf := by
+    intro its
+    induction its with
+    | nil => intro s buf; rfl
+    | cons it r ih =>
+      intro s buf
+      simp only [writeNexusLoopTips, writeNexusLoop, writeNexusStep, writtenTreeTips, writtenTree, Bool.false_eq_true,
+        if_false]
+      exact ih _ _
+  unfold writeNexusTips writeNexus
+  rw [h]
+
+/-- the witness of F60 under the repair: `((a:1,b:1)X:1,(c:1,d:1)X:1,e:1);` written with a translate
+    table by the tips-only variant is read back unchanged (C01's Newick model, `ratCodec`) -/
+theorem nexus_translate_repeated_inner_name_tipsOnly_ok :
+    (match Nex.parseTips (c01Codec Newick.ratCodec) (writeNexusTips (c01Codec Newick.ratCodec) true [(0, dupTree)]) with
+     | .ok [(_, t)] => sameKept t dupTree
+     | _ => false) = true := by
+  decide +kernel
+
+/-- The defect repaired by 82a8873 as a theorem about the pinned parser: a document with two TREES
+    blocks (one tree, then two) is read as THREE trees by the current parser and as the last TWO by the
+    pinned one, without any error. -/
+theorem several_trees_blocks_pinned_fails :
+    let doc := "#NEXUS\nBEGIN TREES;\n TREE t1 = (a,b,c);\nEND;\nBEGIN TREES;\n TREE t2 = (a,c,b);\n TREE t3 = (b,a,c);\nEND;\n".toList
+    (match Nex.parse (c01Codec Newick.ratCodec) doc with | .ok d => d.map (·.1) | _ => []) = ["t1", "t2", "t3"] ∧
+    (match Nex.parsePinnedBlocks (c01Codec Newick.ratCodec) doc with | .ok d => d.map (·.1) | _ => []) = ["t2", "t3"] := by
   decide +kernel
 
 /- ## the hypotheses are satisfiable on a non-trivial tree
